@@ -465,6 +465,43 @@ func c18(c *Ctx) {
 				}
 			}
 			nElem++
+			// … and the kind that is tested is the kind of the very value Elem is applied to
+			if okK {
+				recv := resolveLocal(cl.Call.Args[0])
+				wrong := ""
+				seenB := map[*ssa.BasicBlock]bool{}
+				var walk func(b *ssa.BasicBlock)
+				walk = func(b *ssa.BasicBlock) {
+					if seenB[b] {
+						return
+					}
+					seenB[b] = true
+					for _, pr := range b.Preds {
+						iff, ok := pr.Instrs[len(pr.Instrs)-1].(*ssa.If)
+						if !ok {
+							if len(pr.Instrs) == 1 {
+								walk(pr)
+							}
+							continue
+						}
+						if pr.Succs[0] != b {
+							continue
+						}
+						if _, kv, ok := kindTest(iff.Cond); ok {
+							if kc, isCall := resolveLocal(kv).(*ssa.Call); isCall && calleeName(kc.Common()) == "(reflect.Value).Kind" {
+								if subj := resolveLocal(kc.Call.Args[0]); subj != recv {
+									wrong = subj.Name()
+								}
+							}
+						} else if _, ok := kindsOfCond(iff.Cond, 0); !ok {
+							walk(pr)
+						}
+					}
+				}
+				walk(cl.Block())
+				r.Check(wrong == "", "C18.R4", "Elem kind guard in "+shortName(f)+" at "+blockOrdinal(cl)+" tests the value it unwraps", p.Pos(posOf(cl)), "Kind() of the Elem receiver",
+					"the Ptr/Interface test that lets Value.Elem() through is made on another value ("+wrong+") than the one that is unwrapped: one operand of a comparison is dereferenced and the other is not (pointers never compare equal to their expectation), or Elem panics on a non-pointer")
+			}
 			r.Check(okK, "C18.R4", "Elem kind guard in "+shortName(f)+" at "+blockOrdinal(cl), p.Pos(posOf(cl)), "Elem only under Kind ∈ {Ptr, Interface}",
 				"Value.Elem() is called without a dominating Ptr/Interface kind test: well-typed scalar/struct input panics")
 			// (b) in the equality entry function: unreachable when the operand's nil test is true
